@@ -22,6 +22,8 @@ import (
 	"strings"
 
 	"github.com/google/wuffs/lib/litonlylzma"
+
+	"verif/internal/pngmk"
 )
 
 // Seed is one (intended-to-be) valid input of a std package.
@@ -34,6 +36,8 @@ type Seed struct {
 	// repository's test/data files that were made with cjpeg & co). Only these take part in
 	// the JPEG SIMD-vs-portable comparison (the property's documented exception).
 	EncoderProduced bool
+	Family          string       // non-empty: member of an enumerated family (see family.go)
+	Png             *pngmk.Image // png families: what the file must decode to
 }
 
 var extPkg = map[string]string{
